@@ -462,8 +462,8 @@ def validate(data):
                 if rid not in rels:
                     P("rid-undeclared", path, "<%s> uses r:id %r not declared in %s" % (e.tag.split('}')[-1], rid, rels_name))
                 else:
-                    want = {"hyperlink": "/hyperlink", "drawing": "/drawing", "legacyDrawing": "/vmlDrawing", "tablePart": "/table", "oleObject": None, "control": None, "pageSetup": "/printerSettings", "legacyDrawingHF": "/vmlDrawing", "picture": "/image"}.get(e.tag.split('}')[-1])
-                    if want and not rels[rid]["type"].endswith(want):
+                    want = {"hyperlink": "/hyperlink", "drawing": "/drawing", "legacyDrawing": "/vmlDrawing", "tablePart": "/table", "oleObject": ("/oleObject", "/package"), "control": "/control", "pageSetup": "/printerSettings", "legacyDrawingHF": "/vmlDrawing", "picture": "/image"}.get(e.tag.split('}')[-1])
+                    if want and not rels[rid]["type"].endswith(want if isinstance(want, tuple) else (want,)):
                         P("rid-wrong-type", path, "<%s> r:id %r has type %r" % (e.tag.split('}')[-1], rid, rels[rid]["type"]))
         sd = root.find(M + "sheetData")
         if sd is not None:
